@@ -192,6 +192,34 @@ func c42EndpointAliases(ep string) []string {
 	return []string{ep, bare, ep + "/"}
 }
 
+const c42FindNotCleared = "C42-service-fields-not-cleared"
+
+// c42HistoryDiff reconciles `earlier`, edits the resource to `final`, reconciles twice and compares
+// the objects generated for the cluster with those of a fresh API server (`fresh` dump).
+func c42HistoryDiff(ctx context.Context, scheme *runtime.Scheme, earlier, final *kafscalev1alpha1.KafscaleCluster, extras []client.Object, mode string, fresh c42Dump) string {
+	hw := c42NewWorld(scheme, earlier, extras, mode)
+	_ = hw.reconcile(ctx)
+	var live kafscalev1alpha1.KafscaleCluster
+	if err := hw.c.Get(ctx, hw.key, &live); err != nil {
+		return "VF-INCONCLUSIVE: get cluster: " + err.Error()
+	}
+	live.Spec = *final.Spec.DeepCopy()
+	if err := hw.c.Update(ctx, &live); err != nil {
+		return "VF-INCONCLUSIVE: update cluster spec: " + err.Error()
+	}
+	_ = hw.reconcile(ctx)
+	_ = hw.reconcile(ctx)
+	dh, err := c42DumpAll(ctx, hw.c, scheme)
+	if err != nil {
+		return "VF-INCONCLUSIVE: dump: " + err.Error()
+	}
+	ownedByMe := func(o client.Object) bool { return c42Owned(o) && c42BelongsTo(o, final) }
+	if d := c42DiffDumps(fresh, dh, ownedByMe); d != "" {
+		return "generated objects depend on the resource's history (first: fresh API server; second: the same final spec after the resource was edited from an earlier spec): " + d
+	}
+	return ""
+}
+
 // c42OneCase generates and runs one case; it returns a violation message or "".
 func c42OneCase(t *rapid.T, st *vfkit.Stats, ctx context.Context, scheme *runtime.Scheme, endpoints []string) string {
 	cluster := c42Cluster(t, c42Opts{allowUnsetReplicas: true})
@@ -258,6 +286,41 @@ func c42OneCase(t *rapid.T, st *vfkit.Stats, ctx context.Context, scheme *runtim
 		extras = append(extras, &corev1.Service{ObjectMeta: metav1.ObjectMeta{Name: cluster.Name + "-broker", Namespace: cluster.Namespace,
 			Labels: map[string]string{"owner": "someone"}, Annotations: map[string]string{"old": "annotation"}},
 			Spec: corev1.ServiceSpec{Ports: []corev1.ServicePort{{Name: "legacy", Port: 1234, TargetPort: intstr.FromInt(1234)}}, Selector: map[string]string{"app": "old"}}})
+	}
+	// history: the same cluster resource had another spec earlier and was edited to the final one
+	var earlier *kafscalev1alpha1.KafscaleCluster
+	if !adopted && rapid.IntRange(0, 2).Draw(t, "withHistory") > 0 {
+		earlier = c42Cluster(t, c42Opts{})
+		earlier.Name, earlier.Namespace, earlier.UID = cluster.Name, cluster.Namespace, cluster.UID
+		earlier.Spec.Etcd.Endpoints = append([]string(nil), cluster.Spec.Etcd.Endpoints...)
+		if rapid.Bool().Draw(t, "historyKeepsLfsEnabled") {
+			earlier.Spec.LfsProxy.Enabled = cluster.Spec.LfsProxy.Enabled
+		}
+		if vfkit.Known(c42FindNotCleared) {
+			// excluded by construction: a Service field of the listed finding that the earlier spec set
+			// and the final spec leaves empty
+			es, fs := &earlier.Spec.Brokers.Service, &cluster.Spec.Brokers.Service
+			steered := false
+			if len(fs.Annotations) == 0 && len(es.Annotations) > 0 {
+				es.Annotations, steered = nil, true
+			}
+			if strings.TrimSpace(fs.LoadBalancerIP) == "" && strings.TrimSpace(es.LoadBalancerIP) != "" {
+				es.LoadBalancerIP, steered = "", true
+			}
+			if len(fs.LoadBalancerSourceRanges) == 0 && len(es.LoadBalancerSourceRanges) > 0 {
+				es.LoadBalancerSourceRanges, steered = nil, true
+			}
+			if parseExternalTrafficPolicy(fs.ExternalTrafficPolicy) == "" && parseExternalTrafficPolicy(es.ExternalTrafficPolicy) != "" {
+				es.ExternalTrafficPolicy, steered = "", true
+			}
+			if earlier.Spec.LfsProxy.Enabled && cluster.Spec.LfsProxy.Enabled &&
+				len(cluster.Spec.LfsProxy.Service.LoadBalancerSourceRanges) == 0 && len(earlier.Spec.LfsProxy.Service.LoadBalancerSourceRanges) > 0 {
+				earlier.Spec.LfsProxy.Service.LoadBalancerSourceRanges, steered = nil, true
+			}
+			if steered {
+				st.ExcludedCase(c42FindNotCleared)
+			}
+		}
 	}
 	restore := c42ApplyEnv(env)
 	defer restore()
@@ -363,6 +426,19 @@ func c42OneCase(t *rapid.T, st *vfkit.Stats, ctx context.Context, scheme *runtim
 			return fmt.Sprintf("generated objects depend on something other than the cluster resource and environment (unrelated objects removed: %d, other clusters: %d): %s\n%s", len(extras), len(others), d, describe())
 		}
 	}
+	// depends only on the cluster resource: an API server where the resource had another spec first
+	// (reconciled, then edited to the final spec and reconciled again) must end with the same
+	// generated objects as a fresh one
+	if earlier != nil {
+		st.Class("spec-edit-history")
+		if msg := c42HistoryDiff(ctx, scheme, earlier, cluster, extras, mode, d2); msg != "" {
+			if strings.HasPrefix(msg, "VF-INCONCLUSIVE") {
+				fmt.Println(msg)
+				t.Fatalf("%s", msg)
+			}
+			return msg + "\n" + describe() + "\nearlier spec: " + c42JSON(earlier.Spec)
+		}
+	}
 	if cluster.Spec.LfsProxy.Enabled || mode == "managed" {
 		kl := make([]string, 0, len(kinds))
 		for k := range kinds {
@@ -404,4 +480,49 @@ func TestVF_C42_Idempotent(t *testing.T) {
 			t.Fatalf("%s", msg) // single call site: rapid compares tracebacks to tell a failure from a flaky test
 		}
 	})
+}
+
+// TestVF_C42_Witness replays the listed finding: Service fields removed from the spec stay on the live Service.
+func TestVF_C42_Witness(t *testing.T) {
+	st := vfkit.NewStats("C42", "witness")
+	defer st.Flush()
+	scheme, err := c42Scheme()
+	if err != nil {
+		fmt.Println("VF-INCONCLUSIVE: scheme:", err)
+		t.Fatalf("VF-INCONCLUSIVE: scheme: %v", err)
+	}
+	restore := c42ApplyEnv(map[string]string{operatorEtcdSnapshotSkipPreflightEnv: "true", operatorEtcdSilenceLogsEnv: "true"})
+	defer restore()
+	ctx := context.Background()
+	st.Eval()
+	three := int32(3)
+	final := &kafscalev1alpha1.KafscaleCluster{}
+	final.Namespace, final.Name = "default", "demo"
+	final.Spec.Brokers.Replicas = &three
+	final.Spec.Brokers.Service.Type = "LoadBalancer"
+	final.Spec.S3.Bucket, final.Spec.S3.Region = "bucket", "us-east-1"
+	earlier := final.DeepCopy()
+	earlier.Spec.Brokers.Service.Annotations = map[string]string{"cloud.example.com/lb-scheme": "internet-facing"}
+	earlier.Spec.Brokers.Service.LoadBalancerIP = "203.0.113.10"
+	earlier.Spec.Brokers.Service.LoadBalancerSourceRanges = []string{"203.0.113.0/24"}
+	earlier.Spec.Brokers.Service.ExternalTrafficPolicy = "Local"
+	fresh := c42NewWorld(scheme, final, nil, "managed")
+	if err := fresh.reconcile(ctx); err != nil {
+		t.Fatalf("VF-INCONCLUSIVE: reconcile: %v", err)
+	}
+	df, err := c42DumpAll(ctx, fresh.c, scheme)
+	if err != nil {
+		t.Fatalf("VF-INCONCLUSIVE: dump: %v", err)
+	}
+	msg := c42HistoryDiff(ctx, scheme, earlier, final, nil, "managed", df)
+	if strings.HasPrefix(msg, "VF-INCONCLUSIVE") {
+		fmt.Println(msg)
+		t.Fatalf("%s", msg)
+	}
+	still := strings.Contains(msg, "depend on the resource's history")
+	if len(msg) > 900 {
+		msg = msg[:900] + "..."
+	}
+	st.KnownResult(c42FindNotCleared, still, "spec.brokers.service {annotations, loadBalancerIP, loadBalancerSourceRanges, externalTrafficPolicy} set, reconciled, removed, reconciled: "+msg)
+	t.Logf("%s: stillFails=%v %s", c42FindNotCleared, still, msg)
 }
